@@ -438,10 +438,14 @@ def block(stmts, var, k, env=None):
     if isinstance(s, ast.AnnAssign) and s.value is not None and isinstance(s.target, ast.Name) and s.simple:
         s = ast.Assign(targets=[s.target], value=s.value)        # `x: T = v` binds like `x = v` (the annotation of a local is not evaluated)
     if (isinstance(s, ast.Assign) and len(s.targets) == 1 and isinstance(s.targets[0], ast.Name) and s.targets[0].id not in (var, "converter", "item", "lsp_types")
-            and isinstance(subst(s.value, env), ast.IfExp)):
+            and isinstance(fold(subst(s.value, env)), ast.IfExp)):
         # name = A if c else B (A, B not necessarily pure: a table look-up): c is evaluated once, here; each continuation binds the branch it selected
-        val = subst(s.value, env)
+        # (a test that folds to a constant has already selected its branch in fold)
+        val = fold(subst(s.value, env))
         name = s.targets[0].id
+        st_ = static_truth(val.test)
+        if st_ is not None:
+            return block([ast.Assign(targets=[ast.Name(id=name, ctx=ast.Store())], value=val.body if st_ else val.orelse)] + list(rest), var, k, env)
         kt = block([ast.Assign(targets=[ast.Name(id=name, ctx=ast.Store())], value=val.body)] + list(rest), var, k, env)
         kf = block([ast.Assign(targets=[ast.Name(id=name, ctx=ast.Store())], value=val.orelse)] + list(rest), var, k, env)
         return "(TIf %s %s %s)" % (cond(fold(val.test), var), kt, kf)
